@@ -44,12 +44,15 @@ prop("C11", level="proof", bounded=True,
      text="Every operator method of Payload and CoordPayload (value-returning, reflected, in-place, comparison, <<=) is proved "
           "against 'the same operator on the underlying values' with the operator an uninterpreted function, for both operand kinds, "
           "including result freshness / box identity, operand frames and metric counts: loop-free code, so a complete proof for all values. "
-          "Fiber-level + and * (which go through union, intersection and populate) are decided by the bounded part only: "
+          "At fiber level, `f *= s` with a scalar s on a leaf rank traversed compressed is proved: every element keeps its coordinate and its box, every "
+          "non-empty box holds the product of its old value and s, default-valued ones are left alone (from the proved Fiber.__iter__ and Payload.__imul__). "
+          "The other fiber-level forms of + and * (which go through union, intersection and populate) are decided by the bounded part only: "
           "exhaustive over all fiber pairs on 3 (quick) / 4 (thorough) coordinates with payloads {absent,0,1,2} and scalars {0,1,3}.",
      note="Trusted: pyvc, z3/cvc5, the Python operator-dispatch model (A3), the ghost-counter abstraction of Metrics.incCount. "
           "Operators the classes do not define (//, %, **, ^, >>) are outside the contracts (loud TypeError).",
+     also=["Fiber.__imul__"],
      trusted_base=["Metrics.incCount abstracted by three ghost counters (trusted contract; checked at run time by C15's bounded part)",
-                   "Fiber-level + and * (union/intersection/populate based) are decided only by the bounded part of this check"],
+                   "Fiber-level + and * other than `fiber *= scalar` (union/intersection/populate based) are decided only by the bounded part of this check"],
      assumptions=["operators on payload values are uninterpreted functions: 'the same operator on the underlying values' is proved for every value type at once",
                   "operators the classes do not define at all (//, %, **, ^, >>, unary, reflected logical) raise TypeError loudly and are outside the contracts"],
      equivalent_mutants=[])
